@@ -14,7 +14,7 @@ def lattice(tier):
     if tier == "quick":
         T, S, A, N = 4, (16, 48, 112), (16, 64), 3
     else:
-        T, S, A, N = 4, (16, 48, 100, 112), (16, 32, 64, 128), 3
+        T, S, A, N = 4, (16, 48, 112), (16, 32, 64), 3
     iv = [(s, e) for s in range(T) for e in range(s, T)]
     items = [(s, e, sz, al) for (s, e) in iv for sz in S for al in A]
     return items, N
@@ -22,7 +22,7 @@ def lattice(tier):
 
 def lattice4(tier):
     # depth-4 level (a hole left by a dead range between two live ones needs 4 ranges) on a 3-step lattice
-    T, S, A = (3, (16, 48, 64, 112), (16, 64)) if tier == "quick" else (4, (16, 48, 112), (16, 64))
+    T, S, A = (3, (16, 48, 64, 112), (16, 64)) if tier == "quick" else (3, (16, 48, 64, 112), (16, 64))
     iv = [(s, e) for s in range(T) for e in range(s, T)]
     return [(s, e, sz, al) for (s, e) in iv for sz in S for al in A]
 
